@@ -6,10 +6,11 @@ from tools.harness.walkrun import VAL0
 ID = 'C12'
 TARGETS = ['MindsVerif.Props.C12']
 THEOREMS = ['MindsVerif.Props.C12.' + n for n in (
-    'C12_count', 'C12_fill', 'C12_textual', 'C12_execute', 'C12_mismatch', 'C12_partial', 'phi12',
-    'C12_witness_update', 'C12_from_arg', 'C12_case_operand', 'C12_second_execute', 'C12_info_after_execute', 'C12_keeps_alias')]
+    'C12_count', 'C12_found_perm', 'C12_textual', 'C12_fill', 'C12_visits', 'C12_execute', 'C12_mismatch', 'C12_partial',
+    'phi12', 'C12_update_textual', 'C12_from_arg', 'C12_case_operand', 'C12_second_execute', 'C12_info_after_execute',
+    'C12_keeps_alias')]
 ASSUME = [
-    'get_query_params / fill_query_params = the walker model (C13) with the visitors cbFind / cbFill; prepare / execute / '
+    'get_query_params / fill_query_params = the walker model (C13) with the visitors cbFind / cbFillMap, ordered by rendered position (Params.sortByText over Walk.textOrder, print templates); prepare / execute / '
     'get_statement_info are hand-transcribed (Model/Params.lean); tie = correspondence stream (find, fill with n and n-1 '
     'values, call sequences) against the real functions and a real QueryPlanner',
     'IndexError of params.pop(0) is modelled as a flag; plan_query (what happens after the filled tree is handed to the '
@@ -492,9 +493,9 @@ def run(chk):
             k['_reproduced'] = False
     for (d, text, m, a, real) in metas[:3]:
         chk.samples.append(dict(dialect=d, text=text[:160], mode=m, arg=a, impl=' '.join(real.get('visits', []))[:200], extra=real.get('extra')))
-    chk.samples.append(dict(theorem='C12_fill σ P C q vs : |vs| = |getParams σ P q| → no IndexError, all values consumed, the i-th visited '
-                                    'Parameter is answered with vs[i], these are the parameters reported by prepare in the same order, nothing else is replaced'))
-    chk.samples.append(dict(theorem='C12_partial q : okTree σ q → visiting (= binding) order is the textual order ∧ count check raises PlanningException'))
+    chk.samples.append(dict(theorem='C12_fill σ P C q vs : |vs| = |getParams σ P q| → no IndexError, no value left, the (placeholder, value) pairs made '
+                                    'by the walk are a permutation of (i-th placeholder in textual order, vs[i]); nothing else is replaced'))
+    chk.samples.append(dict(theorem='C12_textual: the reported placeholders are ordered by rendered position (no okTree hypothesis); C12_visits: on okTree every required node is visited'))
     return chk.finish(assumptions=ASSUME)
 
 
